@@ -173,6 +173,14 @@ func Mutate(t *rapid.T, doc map[string]any) (kind string, depth int, ok bool) {
 		}
 		a := names[rapid.IntRange(0, len(names)-1).Draw(t, "selfrefdef")]
 		b := names[rapid.IntRange(0, len(names)-1).Draw(t, "selfrefdef2")]
+		if rapid.Bool().Draw(t, "selfrefviaallof") {
+			// the reference sits inside allOf: a definition inheriting from itself (or from a definition inheriting back)
+			defs[a] = map[string]any{"allOf": []any{map[string]any{"$ref": "#/definitions/" + escapePtr(b)}, defs[a]}}
+			if b != a {
+				defs[b] = map[string]any{"allOf": []any{map[string]any{"$ref": "#/definitions/" + escapePtr(a)}, defs[b]}}
+			}
+			return kind, 1, true
+		}
 		defs[a] = map[string]any{"$ref": "#/definitions/" + escapePtr(b), "allOf": []any{defs[a]}}
 		if b != a {
 			defs[b] = map[string]any{"$ref": "#/definitions/" + escapePtr(a), "allOf": []any{defs[b]}}
